@@ -545,6 +545,9 @@ C13_TYPES = [  # (declared type, rust value, how the body prints it, expected te
     ("(u8,)", "(5,)", "@{x}.0", "5"), ("&[(u32,)]", "&[(1,), (2,)]", "@{x}.len()", "2"), ("Vec<(&'a str,)>", 'vec![("v",)]', "@{x}[0].0", "v"), ("Map<u8, (u8,),>", "Map::new()", "@{x}.len()", "0"),
     ("Content<'a>", "CV", "@{x}", "UC"), ("Content<'_>", "CV", "@{x}", "UC"), ("&'a Content<'a>", "&CV", "@{x}", "UC"), ("Vec<Content<'a>,>", "vec![CV]", "@{x}.len()", "1"),
     ("&'a Content", "&CV", "@{x}", "UC"), ("&'_ Content", "&CV", "@{x}", "UC"), ("& Content", "&CV", "@{x}", "UC"), ("&'a  Content", "&CV", "@{x}", "UC"),
+    # a reference with an explicit lifetime in front of dyn / impl, also nested and with other blanks
+    ("&'a dyn Display", "&5u8", "@{x}", "5"), ("&'_ dyn Display", "&6u8", "@{x}", "6"), ("&'_ impl Display", "&7u8", "@{x}", "7"), ("&'a impl ToHtml", '&"z<"', "@{x}", "z&lt;"),
+    ("Vec<&'_ dyn Display>", "vec![&8u8 as &dyn Display]", "@{x}.len()", "1"), ("& dyn Display", "&9u8", "@{x}", "9"), ("&'a  dyn Display", "&4u8", "@{x}", "4"), ("(&'a dyn Display, u8)", "(&3u8, 1)", "@{x}.0", "3"),
     ("Option<&'a Content>", "Some(&CV)", "@{x}.unwrap()", "UC"), ("&[Content]", "&[CV, CV]", "@{x}.len()", "2"), ("(u8, Content)", "(1, CV)", "@{x}.1", "UC"),
 ]
 C13_NAMES = ["a", "bb", "_ructe_out_x", "W_", "io", "content", "Content_", "x1", "self_", "out", "w", "Z9"]
